@@ -150,3 +150,41 @@ Qed.
 Example prefix15_abc :
   parse_hex (firstn hash_prefix_len (hex_encode (sha1 (s "abc")))) = Some 763804216667957270.
 Proof. vm_compute. reflexivity. Qed.
+
+(* ---- LocalBuffer never asks `make` for a slice longer than its capacity: whenever grow allocates, the capacity it
+   chooses is at least the length it needs, so the buffer's length never exceeds its capacity -- for every initial
+   capacity and every sequence of appends (the `makeslice: cap out of range` panic cannot happen) ---- *)
+Definition buf_ok (b : buf) : Prop := 0 <= buf_cap b /\ zlen (buf_data b) <= buf_cap b.
+
+Lemma zlen_app_ {A} (a b : list A) : zlen (a ++ b) = zlen a + zlen b.
+Proof. unfold zlen. rewrite app_length. lia. Qed.
+Lemma zlen_nonneg_ {A} (a : list A) : 0 <= zlen a.
+Proof. unfold zlen. lia. Qed.
+
+(* the allocation inside grow: make([]byte, newLen, newCap) is asked for newLen <= newCap *)
+Lemma grow_allocation_is_legal b add : buf_ok b -> 0 <= add ->
+  zlen (buf_data b) + add <= buf_cap (grow b add) /\ 0 <= buf_cap (grow b add).
+Proof.
+  intros [Hc Hl] Ha. unfold grow. cbn zeta.
+  destruct (Z.leb_spec (zlen (buf_data b) + add) (buf_cap b)) as [L|L]; [lia|].
+  cbn [buf_cap]. destruct (Z.ltb_spec (buf_cap b * 2) (zlen (buf_data b) + add)) as [L2|L2]; lia.
+Qed.
+
+Lemma buf_step_ok b o : buf_ok b -> buf_ok (buf_step b o).
+Proof.
+  intros H. assert (Hx : forall x, buf_ok (buf_append b x)).
+  { intro x. destruct (grow_allocation_is_legal b (zlen x) H (zlen_nonneg_ x)) as [A B].
+    unfold buf_ok, buf_append. cbn [buf_data buf_cap]. rewrite zlen_app_.
+    assert (Hd : buf_data (grow b (zlen x)) = buf_data b).
+    { unfold grow. cbn zeta. destruct (_ <=? _); reflexivity. }
+    rewrite Hd. lia. }
+  destruct o; cbn [buf_step]; apply Hx.
+Qed.
+
+Theorem buffer_length_within_capacity cap ops : 0 <= cap ->
+  buf_ok (fold_left buf_step ops (buf_new cap)).
+Proof.
+  intro Hc. assert (H : forall b, buf_ok b -> buf_ok (fold_left buf_step ops b)).
+  { induction ops as [|o r IH]; intros b Hb; cbn [fold_left]; [exact Hb|]. apply IH. apply buf_step_ok. exact Hb. }
+  apply H. unfold buf_ok, buf_new. cbn. lia.
+Qed.
